@@ -65,12 +65,15 @@ CLAIMED = [
 ]
 
 # fragments written by the module builders are merged once their checks have been accepted by the coordinator
-READY_FRAGMENTS = {'C19', 'C20', 'C06', 'C07', 'C18', 'C13', 'C14'}
+READY_FRAGMENTS = {'C19', 'C20', 'C06', 'C07', 'C18', 'C13', 'C14', 'C15', 'C16'}
 
 PENDING = {
 }
 
 ENGINES = [
+    dict(name='tla-tethex', path='spec/OVMTet.tla spec/OVMHex.tla spec/OVMTetHexMC.tla spec/OVMTetHexTrace.tla harness/tethex_exec.cc bin/tethex_check.py',
+         serves_properties=['C15', 'C16'],
+         kind_free_text='TLA+ transcription of the tetrahedral / hexahedral kernels on top of OVMKernel plus declarative shape, ordering, labelling and collapse relations; TLC model checking, replay of explored transitions on the C++ library, TLC trace validation'),
     dict(name='tla-props', path='spec/OVMProps.tla spec/OVMPropsMC.tla spec/OVMPropsTrace.tla harness/props_exec.cc bin/props_check.py',
          serves_properties=['C13', 'C14'],
          kind_free_text='explicit TLA+ state machine of the property registry, handle lifetimes and mesh copy/assignment; exhaustively explored by TLC, every explored transition replayed on the C++ library under ASan/UBSan, recorded traces validated by TLC'),
